@@ -200,7 +200,7 @@ func c13Stress(run *evid.Run, i int, j *Journal) {
 		run.Count("histories_with_overlapping_mutators", 1)
 	}
 	run.Count("hook_events", len(tr))
-	if i < 2 {
+	if i < 2 || run.NumSamples() < 2 {
 		run.Sample(map[string]any{"scenario": label, "ops_per_goroutine": lists, "hook_trace_head": head(tr, 30)})
 	}
 }
